@@ -290,7 +290,8 @@ func c12Run(o *Out, kind string, via int, scrape bool, pre, post []hkSpec, baseS
 		}
 		logic.wait()
 	case 1:
-		h := httpfe.VerifHandler(logic, httpfe.Config{Addr: "127.0.0.1:0", AnnounceRoutes: []string{"/announce"}, ScrapeRoutes: []string{"/scrape"}})
+		h, hstop := httpfe.VerifHandler(logic, httpfe.Config{Addr: "127.0.0.1:0", AnnounceRoutes: []string{"/announce"}, ScrapeRoutes: []string{"/scrape"}})
+		defer hstop()
 		uri := "/announce?info_hash=" + url.QueryEscape(string(c12IH[:])) + "&peer_id=announcer-0123456789&port=6881&left=10&downloaded=0&uploaded=0&compact=1&numwant=50"
 		if scrape {
 			uri = "/scrape?info_hash=" + url.QueryEscape(string(c12IH[:]))
@@ -325,6 +326,7 @@ func c12Run(o *Out, kind string, via int, scrape bool, pre, post []hkSpec, baseS
 		}
 	case 2:
 		f := udp.VerifNewOffline(logic, udp.Config{PrivateKey: c12Key, MaxClockSkew: time.Second})
+		defer func() { <-f.Stop() }()
 		src := net.IP{127, 0, 0, 1}
 		cid := udp.NewConnectionID(src, time.Unix(0, c12Now), c12Key)
 		var pkt bytes.Buffer
